@@ -52,12 +52,30 @@ pub fn available() -> Result<(), String> {
 pub struct PSock {
     fd: i32,
     ifindex: i32,
+    /// PTP over UDP/IPv4 (the harness builds and parses the IPv4 and UDP headers itself) instead of PTP over Ethernet
+    udp: bool,
+    ip_id: std::cell::Cell<u16>,
+}
+
+const IP_MCAST_MAC: [u8; 6] = [0x01, 0x00, 0x5e, 0x00, 0x01, 0x81]; // 224.0.1.129
+const SRC_IP: [u8; 4] = [10, 9, 0, 77];
+
+fn ip_checksum(h: &[u8]) -> u16 {
+    let mut sum = 0u32;
+    for c in h.chunks(2) {
+        sum += ((c[0] as u32) << 8) | *c.get(1).unwrap_or(&0) as u32;
+    }
+    while sum >> 16 != 0 {
+        sum = (sum & 0xffff) + (sum >> 16);
+    }
+    !(sum as u16)
 }
 
 impl PSock {
-    pub fn open(ifname: &str) -> Result<PSock, String> {
+    pub fn open(ifname: &str, udp: bool) -> Result<PSock, String> {
         unsafe {
-            let proto = (ETHERTYPE.to_be()) as i32;
+            let ethertype: u16 = if udp { 0x0800 } else { ETHERTYPE };
+            let proto = (ethertype.to_be()) as i32;
             let fd = libc::socket(libc::AF_PACKET, libc::SOCK_DGRAM | libc::SOCK_NONBLOCK, proto);
             if fd < 0 {
                 return Err(format!("socket(AF_PACKET): {}", std::io::Error::last_os_error()));
@@ -69,24 +87,44 @@ impl PSock {
             }
             let mut sll: libc::sockaddr_ll = std::mem::zeroed();
             sll.sll_family = libc::AF_PACKET as u16;
-            sll.sll_protocol = ETHERTYPE.to_be();
+            sll.sll_protocol = ethertype.to_be();
             sll.sll_ifindex = idx as i32;
             if libc::bind(fd, &sll as *const _ as *const libc::sockaddr, std::mem::size_of::<libc::sockaddr_ll>() as u32) != 0 {
                 return Err(format!("bind: {}", std::io::Error::last_os_error()));
             }
             let sz: i32 = 4 << 20;
             libc::setsockopt(fd, libc::SOL_SOCKET, libc::SO_RCVBUF, &sz as *const _ as *const libc::c_void, 4);
-            Ok(PSock { fd, ifindex: idx as i32 })
+            Ok(PSock { fd, ifindex: idx as i32, udp, ip_id: std::cell::Cell::new(1) })
         }
     }
-    pub fn send(&self, data: &[u8]) -> bool {
+    pub fn send(&self, ptp: &[u8]) -> bool {
+        let mut frame: Vec<u8>;
+        let data: &[u8] = if self.udp {
+            // event messages (types 0..3) go to port 319, general messages to 320
+            let port: u16 = if ptp.first().map(|b| b & 0xf < 4).unwrap_or(false) { 319 } else { 320 };
+            let total = 20 + 8 + ptp.len();
+            let id = self.ip_id.get();
+            self.ip_id.set(id.wrapping_add(1));
+            frame = vec![0x45, 0, (total >> 8) as u8, total as u8, (id >> 8) as u8, id as u8, 0x40, 0, 1, 17, 0, 0];
+            frame.extend(SRC_IP);
+            frame.extend([224, 0, 1, 129]);
+            let c = ip_checksum(&frame);
+            frame[10] = (c >> 8) as u8;
+            frame[11] = c as u8;
+            let ulen = 8 + ptp.len();
+            frame.extend([(port >> 8) as u8, port as u8, (port >> 8) as u8, port as u8, (ulen >> 8) as u8, ulen as u8, 0, 0]);
+            frame.extend_from_slice(ptp);
+            &frame
+        } else {
+            ptp
+        };
         unsafe {
             let mut sll: libc::sockaddr_ll = std::mem::zeroed();
             sll.sll_family = libc::AF_PACKET as u16;
-            sll.sll_protocol = ETHERTYPE.to_be();
+            sll.sll_protocol = (if self.udp { 0x0800u16 } else { ETHERTYPE }).to_be();
             sll.sll_ifindex = self.ifindex;
             sll.sll_halen = 6;
-            sll.sll_addr[..6].copy_from_slice(&PTP_MCAST);
+            sll.sll_addr[..6].copy_from_slice(if self.udp { &IP_MCAST_MAC } else { &PTP_MCAST });
             let n = libc::sendto(self.fd, data.as_ptr() as *const libc::c_void, data.len(), 0, &sll as *const _ as *const libc::sockaddr, std::mem::size_of::<libc::sockaddr_ll>() as u32);
             n == data.len() as isize
         }
@@ -105,7 +143,27 @@ impl PSock {
                 if sll.sll_pkttype == 4 {
                     continue; // PACKET_OUTGOING
                 }
-                return Some(buf[..n as usize].to_vec());
+                let f = &buf[..n as usize];
+                if !self.udp {
+                    return Some(f.to_vec());
+                }
+                // IPv4 / UDP to port 319 or 320
+                if f.len() < 28 || f[0] >> 4 != 4 || f[9] != 17 {
+                    continue;
+                }
+                let ihl = ((f[0] & 0xf) as usize) * 4;
+                if f.len() < ihl + 8 {
+                    continue;
+                }
+                let dport = ((f[ihl + 2] as u16) << 8) | f[ihl + 3] as u16;
+                if dport != 319 && dport != 320 {
+                    continue;
+                }
+                let ulen = (((f[ihl + 4] as usize) << 8) | f[ihl + 5] as usize).min(f.len() - ihl);
+                if ulen < 8 {
+                    continue;
+                }
+                return Some(f[ihl + 8..ihl + ulen].to_vec());
             }
         }
     }
@@ -154,6 +212,7 @@ pub struct World {
     a1: PSock,
     b1: PSock,
     pub path_trace: bool,
+    pub udp: bool,
     seq_parent: u16,
     seq_other: u16,
     pub next_parent: Instant,
@@ -167,6 +226,10 @@ pub struct World {
     /// what the parent announces (contents and flag octet 1)
     pub parent_ann: RAnnounce,
     pub parent_flags1: u8,
+    /// PATH_TRACE TLV the parent attaches to its Announces (its own upstream path), if any
+    pub parent_path: Option<Vec<[u8; 8]>>,
+    /// the path the daemon holds: the last one the parent actually sent (Announces without the TLV leave it alone)
+    pub effective_path: Vec<[u8; 8]>,
     /// Delay_Resp frames the daemon's port 2 emitted (sequence ids), and everything else it sent there, by type
     pub seen_b_delay_resp: Vec<u16>,
     pub seen_b_by_type: [u64; 16],
@@ -182,31 +245,37 @@ impl World {
         sh("ip link set lo up")?;
         sh("ip link add a0 type veth peer name a1 && ip link add b0 type veth peer name b1")?;
         sh("ip link set a0 address 00:1b:19:aa:00:01 && ip link set b0 address 00:1b:19:aa:00:02")?;
-        sh("for i in a0 a1 b0 b1; do ip link set $i up; done")
+        sh("for i in a0 a1 b0 b1; do ip link set $i up; done")?;
+        // addresses for the UDP transport: only the daemon's side has any (the harness forges its source address)
+        sh("ip addr add 10.9.0.1/24 dev a0 && ip addr add 10.9.1.1/24 dev b0")?;
+        let _ = sh("sysctl -q -w net.ipv4.conf.all.rp_filter=0 net.ipv4.conf.a0.rp_filter=0 net.ipv4.conf.b0.rp_filter=0");
+        Ok(())
     }
 
-    pub fn start(path_trace: bool) -> Result<World, String> {
+    pub fn start(path_trace: bool, udp: bool) -> Result<World, String> {
         static GEN: std::sync::atomic::AtomicU64 = std::sync::atomic::AtomicU64::new(0);
         let dir = std::env::temp_dir().join(format!("vcheck-e2e-{}-{}", std::process::id(), GEN.fetch_add(1, std::sync::atomic::Ordering::Relaxed)));
         std::fs::create_dir_all(&dir).map_err(|e| e.to_string())?;
         let cfg = format!(
-            "loglevel = \"{ll}\"\nsdo-id = 0\ndomain = 0\npriority1 = 128\nidentity = \"001b19aa00010000\"\nvirtual-system-clock = true\npath-trace = {}\n\n[[port]]\ninterface = \"a0\"\nnetwork-mode = \"ethernet\"\nhardware-clock = \"none\"\nannounce-interval = {l}\nsync-interval = {l}\ndelay-interval = -2\n\n[[port]]\ninterface = \"b0\"\nnetwork-mode = \"ethernet\"\nhardware-clock = \"none\"\nannounce-interval = {l}\nsync-interval = {l}\ndelay-interval = -2\n\n[observability]\nobservation-path = \"{}\"\n",
+            "loglevel = \"{ll}\"\nsdo-id = 0\ndomain = 0\npriority1 = 128\nidentity = \"001b19aa00010000\"\nvirtual-system-clock = true\npath-trace = {}\n\n[[port]]\ninterface = \"a0\"\nnetwork-mode = \"{nm}\"\nhardware-clock = \"none\"\nannounce-interval = {l}\nsync-interval = {l}\ndelay-interval = -2\n\n[[port]]\ninterface = \"b0\"\nnetwork-mode = \"{nm}\"\nhardware-clock = \"none\"\nannounce-interval = {l}\nsync-interval = {l}\ndelay-interval = -2\n\n[observability]\nobservation-path = \"{}\"\n",
             path_trace,
             dir.join("obs.sock").display(),
             l = ANN_LOG,
-            ll = std::env::var("VERIF_E2E_LOGLEVEL").unwrap_or_else(|_| "warn".into())
+            ll = std::env::var("VERIF_E2E_LOGLEVEL").unwrap_or_else(|_| "warn".into()),
+            nm = if udp { "ipv4" } else { "ethernet" }
         );
         std::fs::write(dir.join("statime.toml"), cfg).map_err(|e| e.to_string())?;
         let log = std::fs::File::create(dir.join("daemon.log")).map_err(|e| e.to_string())?;
         let daemon = Command::new(daemon_binary()).arg("-c").arg(dir.join("statime.toml")).stdin(Stdio::null()).stdout(log.try_clone().map_err(|e| e.to_string())?).stderr(log).spawn().map_err(|e| format!("spawn daemon: {}", e))?;
-        let a1 = PSock::open("a1")?;
-        let b1 = PSock::open("b1")?;
+        let a1 = PSock::open("a1", udp)?;
+        let b1 = PSock::open("b1", udp)?;
         let mut w = World {
             dir,
             daemon,
             a1,
             b1,
             path_trace,
+            udp,
             seq_parent: 100,
             seq_other: 7,
             next_parent: Instant::now(),
@@ -217,6 +286,8 @@ impl World {
             own_identity: [0x00, 0x1b, 0x19, 0xaa, 0x00, 0x01, 0x00, 0x00],
             parent_ann: default_parent_ann(),
             parent_flags1: 0,
+            parent_path: None,
+            effective_path: vec![],
             seen_b_delay_resp: vec![],
             seen_b_by_type: [0; 16],
             seen_a_delay_req: vec![],
@@ -236,6 +307,9 @@ impl World {
         m.header.log_interval = ANN_LOG;
         m.header.flags[1] = self.parent_flags1;
         m.tlvs = tlvs.clone();
+        if let Some(p) = &self.parent_path {
+            m.tlvs.insert(0, RTlv { typ: 0x0008, value: p.iter().flat_map(|c| c.iter().copied()).collect() });
+        }
         let now = Instant::now();
         if self.a1.send(&m.encode()) {
             for t in tlvs {
@@ -413,6 +487,21 @@ pub fn case_c15(w: &mut World, t: &mut Tape, tag: u32) -> E2eOut {
     }
     w.seen_b.clear();
     w.sent.clear();
+    // the parent's own upstream path (only meaningful with path trace on): 0..40 identities
+    let prev_path = w.effective_path.clone();
+    if w.path_trace {
+        w.parent_path = if t.chance(1, 2) {
+            let l = t.below(41) as usize;
+            Some((0..l).map(|i| [0x00, 0x1b, 0x19, 0xbb, 0, 0, (i >> 8) as u8, i as u8]).collect())
+        } else {
+            None
+        };
+    }
+    // over UDP the daemon reads general messages into a 2048-byte buffer: Announces beyond 1024 bytes are legal input
+    if let Some(p) = &w.parent_path {
+        w.effective_path = p.clone();
+    }
+    let frame_room = if w.udp { 1300 } else { ROOM } - w.parent_path.as_ref().map(|p| 4 + 8 * p.len()).unwrap_or(0);
     let slots = t.urange(4, 12);
     let mut counter = 0u16;
     let mut rendered = vec![];
@@ -445,7 +534,7 @@ pub fn case_c15(w: &mut World, t: &mut Tape, tag: u32) -> E2eOut {
         for _ in 0..n {
             let x = mk(t, &mut counter);
             // the daemon's Ethernet receive buffer is 1024 bytes: keep the whole Announce within it
-            if total + x.wire_size() <= ROOM {
+            if total + x.wire_size() <= frame_room {
                 total += x.wire_size();
                 tl.push(x);
             }
@@ -486,7 +575,7 @@ pub fn case_c15(w: &mut World, t: &mut Tape, tag: u32) -> E2eOut {
         return E2eOut { out, inconclusive: Some(format!("daemon left (Slave, Master) during the case: {:?}", w.port_states())) };
     }
     // expected: the parent's propagating TLVs that fit an Announce, in order of sending
-    let path_cost = if w.path_trace { 4 + 8 } else { 0 };
+    let path_cost = if w.path_trace { 4 + 8 * (w.effective_path.len().max(prev_path.len()) + 1) } else { 0 };
     let want: Vec<&RTlv> = w.sent.iter().filter(|s| s.sender == PARENT && is_prop(s.tlv.typ) && s.tlv.wire_size() <= ROOM - path_cost).map(|s| &s.tlv).collect();
     let mut got: Vec<&RTlv> = vec![];
     for a in &w.seen_b {
@@ -497,10 +586,14 @@ pub fn case_c15(w: &mut World, t: &mut Tape, tag: u32) -> E2eOut {
         if w.path_trace {
             match it.next() {
                 Some(first) if first.typ == 0x0008 => {
-                    let mut exp: Vec<u8> = vec![];
-                    exp.extend(w.own_identity);
-                    if first.value != exp {
-                        out.fail("daemon: PATH_TRACE TLV of the emitted Announce is not the parent's path plus the own identity", format!("{:02x?}", first.value));
+                    // the path the parent sends in this case, or (early in the case) the one it sent before
+                    let ok = [&w.effective_path, &prev_path].iter().any(|p| {
+                        let mut exp: Vec<u8> = p.iter().flat_map(|c| c.iter().copied()).collect();
+                        exp.extend(w.own_identity);
+                        first.value == exp
+                    });
+                    if !ok {
+                        out.fail("daemon: PATH_TRACE TLV of the emitted Announce is not the parent's path plus the own identity", format!("{} entries: {:02x?}", first.value.len() / 8, &first.value[..first.value.len().min(32)]));
                     }
                 }
                 _ => out.fail("daemon: emitted Announce lacks the PATH_TRACE TLV although path trace is on", format!("{} tlvs", a.msg.tlvs.len())),
@@ -526,7 +619,10 @@ pub fn case_c15(w: &mut World, t: &mut Tape, tag: u32) -> E2eOut {
         };
         out.fail(sig, format!("forwarded {:?} ; expected {:?} ; announces seen {} ; ops {:?}", d(&got), d(&want), w.seen_b.len(), rendered));
     }
-    out.render = json!({"path_trace": w.path_trace, "ops": rendered, "announces_seen_on_port2": w.seen_b.len()});
+    out.render = json!({"path_trace": w.path_trace, "parent_path_entries": w.parent_path.as_ref().map(|p| p.len()), "ops": rendered, "announces_seen_on_port2": w.seen_b.len()});
+    if w.sent.iter().map(|s| s.tlv.wire_size()).sum::<usize>() > 0 && w.udp {
+        out.label("daemon:udp");
+    }
     if !want.is_empty() {
         out.nontrivial = Some(hash_of(&format!("{:?}", rendered)));
         out.label("daemon:tlvs-to-forward");
@@ -713,7 +809,7 @@ pub fn case_c17(w: &mut World, t: &mut Tape) -> E2eOut {
     // per-iteration weights of the traffic kinds
     let wts: Vec<u64> = (0..8).map(|_| t.below(6)).collect();
     let burst = t.urange(1, 6) as usize;
-    let pause_us = *t.pick(&[0u64, 50, 200, 1000]);
+    let pause_us = *t.pick(&[20u64, 50, 200, 1000, 3000]);
     let me1 = PortId { clock: w.own_identity, port: 1 };
     let mut sync_seq = (t.below(0x10000)) as u16;
     let mut req_seq = 0u16;
@@ -806,41 +902,58 @@ pub fn case_c17(w: &mut World, t: &mut Tape) -> E2eOut {
     w.parent_ann = default_parent_ann();
     w.parent_flags1 = 0;
     w.next_parent = Instant::now();
-    w.seen_b.clear();
-    w.seen_b_delay_resp.clear();
-    let d = Instant::now() + Duration::from_millis(1500);
-    w.run_until(d);
     let rendered = json!({"flood_ms": flood_ms, "weights(parent announce, sync+fup, delay_resp, other announce, delay_req x2, announce on port 2, pdelay_req)": wts, "burst": burst, "pause_us": pause_us, "sent": sent, "observation_polls": obs_polls});
+    // Liveness, not speed: the daemon may need a while to work off its receive queues. It has up to 10 s to show,
+    // within one 1.5 s window, at least two Announces on port 2 and an answer to a fresh Delay_Req; a deadlocked
+    // or panicked daemon never does.
+    let probe_src = PortId { clock: [0x00, 0x1b, 0x19, 0xee, 0, 0, 0, 0x77], port: 1 };
+    let r0 = Instant::now();
+    let mut announces_after = 0;
+    let mut answered = false;
+    let mut round = 0u16;
+    while r0.elapsed() < Duration::from_secs(10) {
+        if !w.alive() {
+            break;
+        }
+        w.seen_b.clear();
+        w.seen_b_delay_resp.clear();
+        let d = Instant::now() + Duration::from_millis(1000);
+        w.run_until(d);
+        answered = false;
+        for k in 0..2u16 {
+            let seq = 0x7700 + round * 4 + k;
+            let m = RMsg::new(T_DELAY_REQ, probe_src, seq, RBody::DelayReq { origin: RTs::default() });
+            w.send_b(&m);
+            let d = Instant::now() + Duration::from_millis(250);
+            w.run_until(d);
+            if w.seen_b_delay_resp.contains(&seq) {
+                answered = true;
+                break;
+            }
+        }
+        announces_after = w.seen_b.iter().filter(|a| a.msg.header.source.clock == w.own_identity).count();
+        round += 1;
+        if announces_after >= 2 && answered {
+            break;
+        }
+    }
+    let recovery_ms = r0.elapsed().as_millis();
     if !w.alive() {
         let log = std::fs::read_to_string(w.dir.join("daemon.log")).unwrap_or_default();
         out.fail("daemon exited under concurrent load on both ports", format!("{} ; {}", log.lines().rev().take(4).collect::<Vec<_>>().join(" | "), rendered));
         return E2eOut { out, inconclusive: None };
     }
-    let announces_after = w.seen_b.iter().filter(|a| a.msg.header.source.clock == w.own_identity).count();
-    // a fresh Delay_Req must be answered by the master port
-    let mut answered = false;
-    let probe_src = PortId { clock: [0x00, 0x1b, 0x19, 0xee, 0, 0, 0, 0x77], port: 1 };
-    for k in 0..4u16 {
-        let seq = 0x7700 + k;
-        let m = RMsg::new(T_DELAY_REQ, probe_src, seq, RBody::DelayReq { origin: RTs::default() });
-        w.send_b(&m);
-        let d = Instant::now() + Duration::from_millis(250);
-        w.run_until(d);
-        if w.seen_b_delay_resp.contains(&seq) {
-            answered = true;
-            break;
-        }
-    }
     let obs = w.observe();
     if announces_after < 2 {
-        out.fail("daemon: master port silent after concurrent load on both ports (deadlock?)", format!("{} Announces in 1.5 s (nominal 12) ; {}", announces_after, rendered));
+        out.fail("daemon: master port silent for 10 s after concurrent load on both ports (deadlock?)", format!("{} Announces in the last 1.5 s window ; {}", announces_after, rendered));
     } else if obs.is_none() {
         out.fail("daemon: observation socket silent after concurrent load", rendered.to_string());
     } else if !w.steady() {
         return E2eOut { out, inconclusive: Some(format!("daemon left (Slave, Master): {:?}", w.port_states())) };
     } else if !answered {
-        out.fail("daemon: master port does not answer Delay_Req after concurrent load on both ports", rendered.to_string());
+        out.fail("daemon: master port does not answer Delay_Req for 10 s after concurrent load on both ports", rendered.to_string());
     }
+    out.label(format!("daemon:recovered-within-{}s", (recovery_ms / 2000 + 1) * 2));
     out.render = rendered;
     if sent.iter().filter(|x| **x > 0).count() >= 3 {
         out.nontrivial = Some(hash_of(&format!("{:?}{}{}{}", wts, flood_ms, burst, pause_us)));
@@ -961,11 +1074,12 @@ pub fn worker_main(args: &[String]) -> i32 {
     let stride: u64 = args.get(4).and_then(|s| s.parse().ok()).unwrap_or(1);
     let tape_file = args.get(5).cloned();
     let path_trace = (first % 2) == 1;
+    let udp = (first / 2) % 2 == 1;
     if let Err(e) = World::setup_links() {
         println!("{}", json!({"fatal": e}));
         return 2;
     }
-    let mut w = match World::start(path_trace) {
+    let mut w = match World::start(path_trace, udp) {
         Ok(w) => w,
         Err(e) => {
             println!("{}", json!({"fatal": e}));
@@ -1007,6 +1121,7 @@ pub fn worker_main(args: &[String]) -> i32 {
         let mut r = r;
         if let Some(o) = r.out.render.as_object_mut() {
             o.insert("path_trace".into(), json!(path_trace));
+            o.insert("transport".into(), json!(if udp { "udp-ipv4" } else { "ethernet" }));
         }
         let line = json!({
             "index": idx,
@@ -1022,7 +1137,7 @@ pub fn worker_main(args: &[String]) -> i32 {
             // a wedged or dead daemon must not spoil the following cases: start a fresh one
             drop(exporter.take());
             drop(w);
-            w = match World::start(path_trace) {
+            w = match World::start(path_trace, udp) {
                 Ok(w) => w,
                 Err(e) => {
                     println!("{}", json!({"fatal": format!("restart: {}", e)}));
@@ -1129,7 +1244,7 @@ pub fn run_part(ctx: &Ctx, rep: &mut Report, n: u64, workers: u64) -> PartSummar
         let _ = c.wait();
     }
     rep.parts.push(json!({"part": "daemon", "cases": cases, "inconclusive": inconclusive, "inconclusive_sample": sample_inconclusive, "failures_not_reproduced_in_3_reruns(not counted)": unconfirmed, "workers": workers, "worker_errors": fatal,
-        "wall_s": t0.elapsed().as_secs_f64(), "what": "the real statime daemon (built from /repo) as a two-port boundary clock in a private network namespace over veth pairs, PTP over Ethernet, announce interval 125 ms, virtual system clock; real time"}));
+        "wall_s": t0.elapsed().as_secs_f64(), "what": "the real statime daemon (built from /repo) as a two-port boundary clock in a private network namespace over veth pairs; workers alternate between PTP over Ethernet and PTP over UDP/IPv4 and between path trace off and on; announce interval 125 ms, virtual system clock; real time"}));
     PartSummary { cases, inconclusive, skipped: None }
 }
 
@@ -1140,9 +1255,10 @@ fn confirm(ctx: &Ctx, line: &Value) -> bool {
     let f = dir.join("case.json");
     let _ = std::fs::write(&f, json!({"tape": line["tape"], "case": line["render"]}).to_string());
     let exe = std::env::current_exe().expect("current exe");
-    let pt = line["render"]["path_trace"].as_bool().unwrap_or(line["index"].as_u64().unwrap_or(0) % 2 == 1);
-    let first = if pt { "1" } else { "0" };
-    let o = Command::new("unshare").arg("-n").arg(&exe).args(["E2E-WORKER", &ctx.prop, &ctx.seed.to_string(), first, "3", "2", f.to_str().unwrap()]).stdin(Stdio::null()).stderr(Stdio::null()).output();
+    let pt = line["render"]["path_trace"].as_bool().unwrap_or(false);
+    let udp = line["render"]["transport"].as_str() == Some("udp-ipv4");
+    let first = (pt as u64 + 2 * udp as u64).to_string();
+    let o = Command::new("unshare").arg("-n").arg(&exe).args(["E2E-WORKER", &ctx.prop, &ctx.seed.to_string(), &first, "3", "4", f.to_str().unwrap()]).stdin(Stdio::null()).stderr(Stdio::null()).output();
     let _ = std::fs::remove_dir_all(&dir);
     let Ok(o) = o else { return true };
     String::from_utf8_lossy(&o.stdout).lines().any(|l| serde_json::from_str::<Value>(l).map(|v| v["violation"].is_object()).unwrap_or(false))
@@ -1157,9 +1273,9 @@ pub fn replay_part(ctx: &Ctx, path: &str, tries: u64) -> i32 {
     }
     let exe = std::env::current_exe().expect("current exe");
     // same daemon configuration as in the failing run (workers with an odd first index run with path trace on)
-    let pt = std::fs::read_to_string(path).ok().and_then(|s| serde_json::from_str::<Value>(&s).ok()).map(|v| v["case"]["path_trace"].as_bool().unwrap_or(false)).unwrap_or(false);
-    let first = if pt { "1" } else { "0" };
-    let o = Command::new("unshare").arg("-n").arg(&exe).args(["E2E-WORKER", &ctx.prop, &ctx.seed.to_string(), first, &tries.to_string(), "2", path]).stdin(Stdio::null()).stderr(Stdio::null()).output();
+    let case = std::fs::read_to_string(path).ok().and_then(|s| serde_json::from_str::<Value>(&s).ok()).map(|v| v["case"].clone()).unwrap_or(Value::Null);
+    let first = (case["path_trace"].as_bool().unwrap_or(false) as u64 + 2 * (case["transport"].as_str() == Some("udp-ipv4")) as u64).to_string();
+    let o = Command::new("unshare").arg("-n").arg(&exe).args(["E2E-WORKER", &ctx.prop, &ctx.seed.to_string(), &first, &tries.to_string(), "4", path]).stdin(Stdio::null()).stderr(Stdio::null()).output();
     let Ok(o) = o else {
         println!("INFRA: could not run the worker");
         return 2;
